@@ -64,7 +64,7 @@ struct State {
   std::vector<BlockInfo> blocks;                    // by id (id = index)
   std::unordered_map<const void*, uint64_t> live;   // user pointer -> id (never iterated for output)
   uint64_t live_bytes = 0;
-  uint64_t t_requests[SA_MAX_TASKS] = {0}, t_live[SA_MAX_TASKS] = {0}, t_xor[SA_MAX_TASKS] = {0}, t_seq[SA_MAX_TASKS] = {0};
+  uint64_t t_requests[SA_MAX_TASKS] = {0}, t_live[SA_MAX_TASKS] = {0}, t_xor[SA_MAX_TASKS] = {0}, t_seq[SA_MAX_TASKS] = {0}, t_bytes[SA_MAX_TASKS] = {0};
   OpWindow win[SA_MAX_TASKS];
   Arena arena[2];
   bool arenas_ready = false;
@@ -88,7 +88,7 @@ bool should_refuse(OpWindow& w, bool is_realloc, size_t size) {
       w.prob_state = mix64(w.prob_state + 0x9E3779B97F4A7C15ull);
       refuse = (w.prob_state % 1000) < w.fault.k; break;
     }
-    case F_QUOTA: refuse = (S.live_bytes + size > w.fault.k); break;
+    case F_QUOTA: refuse = (S.t_bytes[TK()] + size > w.fault.k); break;   // the budget is the task's own (identical alone and interleaved)
     default: break;
   }
   if (refuse) { sa_fired[kind]++; w.refused_injected++; }
@@ -102,7 +102,7 @@ unsigned char* backend_alloc(size_t n, int* arena_idx) {
     case BE_ARENA: {
       *arena_idx = S.cur_arena;
       unsigned char* p = (unsigned char*)S.arena[S.cur_arena].alloc(n);
-      if (p) { if (!g_nofill) memset(p, 0xAA, n); memset(p + n, 0xEE, (((n + 15) & ~(size_t)15) ? ((n + 15) & ~(size_t)15) : 16) + 16 - n); }
+      if (p) { if (!g_nofill) memset(p, S.knobs.fill, n); memset(p + n, 0xEE, (((n + 15) & ~(size_t)15) ? ((n + 15) & ~(size_t)15) : 16) + 16 - n); }
       return p;
     }
     case BE_TAG: {
@@ -110,13 +110,13 @@ unsigned char* backend_alloc(size_t n, int* arena_idx) {
       if (!raw) return nullptr;
       uint64_t hdr[4] = {TAG_MAGIC, (uint64_t)n, ~TAG_MAGIC, 0};
       memcpy(raw, hdr, TAG_HDR);
-      if (!g_nofill) memset(raw + TAG_HDR, 0xAA, n);
+      if (!g_nofill) memset(raw + TAG_HDR, S.knobs.fill, n);
       memset(raw + TAG_HDR + n, 0xC5, TAG_CANARY);
       return raw + TAG_HDR;
     }
     default: {
       unsigned char* p = (unsigned char*)malloc(n);
-      if (p && !g_nofill) memset(p, 0xAA, n);
+      if (p && !g_nofill) memset(p, S.knobs.fill, n);
       return p;
     }
   }
@@ -151,7 +151,7 @@ void backend_release(BlockInfo& b) {
 uint64_t new_block(unsigned char* p, size_t n, uint8_t origin, int arena_idx) {
   BlockInfo b; b.id = S.blocks.size(); b.user = p; b.size = n; b.live = true; b.origin = origin; b.task = TK(); b.arena = arena_idx; b.local = S.t_seq[b.task]++;
   S.blocks.push_back(b);
-  S.live[p] = b.id; S.t_live[b.task]++; S.t_xor[b.task] ^= mix64(b.local + 1);
+  S.live[p] = b.id; S.t_live[b.task]++; S.t_bytes[b.task] += n; S.t_xor[b.task] ^= mix64(b.local + 1);
   S.live_bytes += n;
   return b.id;
 }
@@ -183,7 +183,7 @@ void sa_reset(const SaKnobs& k) {
     else if (S.knobs.backend == BE_DIRECT) free(b.user);
     b.live = false;
   }
-  S.blocks.clear(); S.live.clear(); S.live_bytes = 0; for (int i = 0; i < SA_MAX_TASKS; i++) S.t_requests[i] = S.t_live[i] = S.t_xor[i] = S.t_seq[i] = 0; S.arena_freed.clear();
+  S.blocks.clear(); S.live.clear(); S.live_bytes = 0; for (int i = 0; i < SA_MAX_TASKS; i++) S.t_requests[i] = S.t_live[i] = S.t_xor[i] = S.t_seq[i] = S.t_bytes[i] = 0; S.arena_freed.clear();
   for (auto& w : S.win) w = OpWindow();
   S.knobs = k;
   if (k.backend == BE_ARENA) {
@@ -203,7 +203,7 @@ OpWindow sa_end() { OpWindow& w = W(); OpWindow r = w; w.open = false; w.fault =
 OpWindow& sa_window() { return W(); }
 
 uint64_t sa_live_count() { return S.live.size(); }
-uint64_t sa_live_bytes() { return S.live_bytes; }
+uint64_t sa_live_bytes() { return g_task_mode ? S.t_bytes[TK()] : S.live_bytes; }
 uint64_t sa_live_sig() { int t = TK(); return hash_comb(S.t_live[t], S.t_xor[t]); }
 uint64_t sa_live_count_mine() { return g_task_mode ? S.t_live[TK()] : S.live.size(); }
 uint64_t sa_total_requests() { if (g_task_mode) return S.t_requests[TK()]; uint64_t t = 0; for (int i = 0; i < SA_MAX_TASKS; i++) t += S.t_requests[i]; return t; }
@@ -231,7 +231,7 @@ void sa_client_free(void* p) {
   auto it = S.live.find(p);
   if (it == S.live.end()) { fprintf(stderr, "HARNESS: client free of unknown pointer\n"); _exit(2); }
   BlockInfo& b = S.blocks[it->second];
-  S.live.erase(it); S.live_bytes -= b.size; b.live = false; S.t_live[b.task]--; S.t_xor[b.task] ^= mix64(b.local + 1);
+  S.live.erase(it); S.live_bytes -= b.size; b.live = false; S.t_live[b.task]--; S.t_bytes[b.task] -= b.size; S.t_xor[b.task] ^= mix64(b.local + 1);
   g_log.ev("client-free", b.local);
   backend_release(b);
 }
@@ -292,18 +292,28 @@ void* sim_realloc(void* ptr, size_t n) {
     // natural libc realloc (may or may not move)
     unsigned char* np = (unsigned char*)realloc(old.user, n);
     if (!np) { w.refused++; sa_fired_toolarge++; return nullptr; }
-    if (n > old.size && !g_nofill) memset(np + old.size, 0xAA, n - old.size);
-    S.live.erase(old.user); S.live_bytes -= old.size; S.blocks[oid].live = false; S.t_live[old.task]--; S.t_xor[old.task] ^= mix64(old.local + 1);
+    if (n > old.size && !g_nofill) memset(np + old.size, S.knobs.fill, n - old.size);
+    S.live.erase(old.user); S.live_bytes -= old.size; S.blocks[oid].live = false; S.t_live[old.task]--; S.t_bytes[old.task] -= old.size; S.t_xor[old.task] ^= mix64(old.local + 1);
     uint64_t nid = new_block(np, n, 1, -1);
     w.freed.push_back(oid); w.allocated.push_back(nid); w.moved.emplace_back(oid, nid);
     g_log.ev("realloc", S.blocks[oid].local, S.blocks[nid].local, n);
     return np;
   }
+  if (S.knobs.backend == BE_ARENA && S.knobs.realloc_mode == 1 && !S.arena[old.arena].ro) {
+    // a legal allocator may resize in place and return the SAME pointer when the block's capacity allows it
+    size_t cap = ((old.size + 15) & ~(size_t)15); if (!cap) cap = 16;
+    if (n <= cap) {
+      if (n > old.size) memset(old.user + old.size, S.knobs.fill, n - old.size); else memset(old.user + n, 0xEE, old.size - n);
+      S.live_bytes += n; S.live_bytes -= old.size; S.t_bytes[old.task] += n; S.t_bytes[old.task] -= old.size; S.blocks[oid].size = n;
+      g_log.ev("realloc-inplace", S.blocks[oid].local, n, 0);
+      return old.user;
+    }
+  }
   // move: new block, copy, release old
   int ai; unsigned char* np = backend_alloc(n, &ai);
   if (!np) { w.refused++; sa_fired_toolarge++; return nullptr; }
   memcpy(np, old.user, n < old.size ? n : old.size);
-  S.live.erase(old.user); S.live_bytes -= old.size; S.blocks[oid].live = false; S.t_live[old.task]--; S.t_xor[old.task] ^= mix64(old.local + 1);
+  S.live.erase(old.user); S.live_bytes -= old.size; S.blocks[oid].live = false; S.t_live[old.task]--; S.t_bytes[old.task] -= old.size; S.t_xor[old.task] ^= mix64(old.local + 1);
   backend_release(S.blocks[oid]);
   uint64_t nid = new_block(np, n, 1, ai);
   w.freed.push_back(oid); w.allocated.push_back(nid); w.moved.emplace_back(oid, nid);
@@ -328,7 +338,7 @@ void sim_free(void* ptr) {
   }
   BlockInfo& b = S.blocks[it->second];
   if (b.task != sched_cur() && sched_active() && b.origin != 2) fail("C17", "alloc:cross-task-release", fmt("task %d released block #%llu obtained by task %d", sched_cur(), (unsigned long long)b.id, b.task));
-  S.live.erase(it); S.live_bytes -= b.size; b.live = false; S.t_live[b.task]--; S.t_xor[b.task] ^= mix64(b.local + 1);
+  S.live.erase(it); S.live_bytes -= b.size; b.live = false; S.t_live[b.task]--; S.t_bytes[b.task] -= b.size; S.t_xor[b.task] ^= mix64(b.local + 1);
   w.frees++; w.freed.push_back(b.id);
   g_log.ev("free", b.local, b.size, 0);
   backend_release(b);
